@@ -448,7 +448,9 @@ def rule_sigma(repo, tier):
 
 def _rules_core(repo, tier):
     from ..fresh import rule_fresh
+    from ..conf import rule_conf
     return [rule_pure13(repo, tier), rule_sym(repo, tier), rule_innov(repo, tier), rule_gain(repo, tier), rule_xcov(repo, tier), rule_orient(repo, tier), rule_pf(repo, tier), rule_inverse(repo, tier), rule_sigma(repo, tier),
+            rule_conf(repo, 'C13.CONF', [(EKF, 'EKF'), (UKF, 'UKF'), (PF, 'PF')]),
             rule_fresh(repo, 'C13.FRESH', 'nothing a filter step writes in place is loaded from the filter object: work tensors are allocated per step',
                        [(EKF, 'EKF.forward'), (UKF, 'UKF.forward'), (UKF, 'UKF.sigma_weight_points'), (UKF, 'UKF.compute_cov'), (PF, 'PF.forward'),
                         (PF, 'PF.generate_particles'), (PF, 'PF.resample_particles')])]
@@ -456,7 +458,11 @@ def _rules_core(repo, tier):
 
 def rules(repo, tier):
     from ..memo import rule_memo
+    from ..optional import rule_optional
+    from ..axisdefault import rule_axisdefault
     return list(_rules_core(repo, tier)) + [rule_memo(repo, 'C13.MEMO', 'history independence: nothing computed from the contents of a tensor argument is kept '
                                                       'under the identity, address or version of that tensor, in module-level storage, or published from a generator '
                                                       'before it is complete - a later call with the same object and other contents must not be answered from it',
-                                                      ['pypose.module.ekf', 'pypose.module.ukf', 'pypose.module.pf', 'pypose.module.dynamics'], floor=3)]
+                                                      ['pypose.module.ekf', 'pypose.module.ukf', 'pypose.module.pf', 'pypose.module.dynamics'], floor=3),
+            rule_optional(repo, 'C13.OPT', ['pypose.module.ekf', 'pypose.module.ukf', 'pypose.module.pf', 'pypose.module.dynamics']),
+            rule_axisdefault(repo, 'C13.AXDEF', ['pypose.module.ekf', 'pypose.module.ukf', 'pypose.module.pf'])]
